@@ -135,6 +135,7 @@ def construct_protocol(ctx, repo):
     ctx.call(R6B.r_generators_fifo, repo)
     ctx.call(RR2.r_state_applied, repo)
     ctx.call(RX.r_setstate_unconditional, repo)
+    ctx.call(R12.r_mode_flag_restored, repo)
 
 
 def mapping_rules(ctx, repo):
